@@ -244,6 +244,16 @@ fn run(ctx: &mut Ctx) {
             }
         });
     }
+    // 3b. failing operations whose result is discarded (the failure is part of the program's behaviour)
+    for (k2, (label, src, class)) in crate::props::c09::discarded_failure_sources().into_iter().enumerate() {
+        if !ctx.mine(700_000 + k2 as u64) {
+            continue;
+        }
+        ctx.case(&label.clone(), |c| {
+            crate::props::c09::check_discarded_failure(c, "C01", &label, &src, class);
+            c.count("executions", 1);
+        });
+    }
     // 4. generated multi-package projects
     let np = tier.pick(48u64, 2_000u64) / ctx.nshards as u64 + 1;
     for i in 0..np {
